@@ -43,10 +43,21 @@ def ibm32(b, i):
     """IBM System/360 single: S (1 bit), E (7 bits, excess 64, base 16), M (24-bit fraction): (-1)^S * 16^(E-64) * M/2^24"""
     return (real(be(b, i + 1, 3)) / 16777216 * pow2(4 * (b[i] % 128 - 64))) * (1 if b[i] < 128 else -1)
 
+def vax_s(b, i):
+    return b[i + 1] // 128
+
+def vax_e(b, i):
+    return (b[i + 1] % 128) * 2 + b[i] // 128
+
+def vax_m(b, i):
+    return (b[i] % 128) * 65536 + b[i + 3] * 256 + b[i + 2]
+
 def vax32(b, i):
-    """VAX F: byte order 1,0,3,2; S = bit 7 of byte 1; E = 8 bits (excess 128); M = 23 bits with hidden 0.1:
-    (-1)^S * (0.5 + M/2^24) * 2^(E-128)... written with M/2^23 halved: (0.5 + m/2^23 ... ) see B.6; zero iff E=0 and S=0"""
-    return 0
+    """VAX F floating [RP66V1 Appendix B.6]: bytes in the order 1, 0, 3, 2 of the big-endian picture; S = bit 7 of byte 1,
+    E = 8 bits (excess 128), M = 23 fraction bits after a hidden leading 0.1 (binary): (-1)^S * (0.5 + M / 2^24) * 2^(E - 128);
+    E = 0 with S = 0 is zero"""
+    return (0 if (vax_e(b, i) == 0 and vax_s(b, i) == 0)
+            else (real(8388608 + vax_m(b, i)) / 16777216 * pow2(vax_e(b, i) - 128)) * (1 if vax_s(b, i) == 0 else -1))
 
 def uvari_len(b, i):
     return 1 if b[i] < 128 else (2 if b[i] < 192 else 4)
@@ -183,6 +194,9 @@ def _register_rp66(reg):
     B = 'ld.bytes'
     I0 = 'old(ld.index)'
     reg.add(Contract(RP, 'ISINGL', returns=Real, **fixed(4, 'result == ibm32(ld.bytes, old(ld.index))', 'result == 0')))
+    # VAX F: the fraction weight is a recorded finding (region: fraction bits not all zero); outside it the sign, the
+    # exponent assembled from two bytes, the zero rule and the consumption are proved
+    reg.add(Contract(RP, 'VSINGL', returns=Real, **fixed(4, 'result == vax32(ld.bytes, old(ld.index))', 'result == 0')))
     reg.add(Contract(RP, 'SSHORT', returns=Int, **fixed(1, 'result == s_n(ld.bytes[old(ld.index)], 8)', 'result == 0')))
     reg.add(Contract(RP, 'SNORM', returns=Int, **fixed(2, 'result == s_n(be(ld.bytes, old(ld.index), 2), 16)', 'result == 0')))
     reg.add(Contract(RP, 'SLONG', returns=Int, **fixed(4, 'result == s_n(be(ld.bytes, old(ld.index), 4), 32)', 'result == 0')))
